@@ -1031,6 +1031,7 @@ LEVEL_NOTE = ("Trusted: Lean kernel, axioms <= {propext, Quot.sound} (audited ea
               "oracle that applies the documented edit to the path set of the real tree and checks identity, attributes, relative "
               "order, source-tree integrity and multi-pair = sequential. Observation (not demanded by the property text): when "
               "the from-node of shift_and_replace_nodes is a LATER sibling of the replaced node it keeps its own place instead of "
-              "taking the replaced node's (C08.replace_later_sibling_observation).")
+              "taking the replaced node's (C08.replace_later_sibling_observation)."
+    " Known finding K12 (a copy into the copied node's own subtree through a missing intermediate contains that intermediate) lies in the excluded 'destination inside the addressed subtree' corner and is replayed separately on every run.")
 TECHNIQUE = ("Lean 4 proof (entry-list filter lemmas for modify/remove/append/grow/relabel on name-addressed rose trees; fold law for the "
              "pair loop) + correspondence check against shift_nodes / copy_nodes / shift_and_replace_nodes / the tree-to-tree variants")
